@@ -58,7 +58,8 @@ mod sealed {
     unsafe fn recover_freelist(&self, base: *mut u8, cap: u32) {
       // a file written by a `sync::Arena` may contain a segment that was marked as removed (size 0)
       let mut current: &UnsafeCell<u64> = &self.sentinel;
-      loop {
+      // a well-formed list has at most one segment per 8 bytes; never follow a corrupted one for ever
+      for _ in 0..=cap / SEGMENT_NODE_SIZE as u32 {
         let (current_size, next_offset) = decode_segment_node(*current.as_inner_ref());
         if next_offset == SENTINEL_SEGMENT_NODE_OFFSET
           || next_offset % SEGMENT_NODE_SIZE as u32 != 0
